@@ -5,6 +5,10 @@
 //   s2nlen <w> <units>               ->  same through the (content, length) overload, offset not reported ("-")
 //   s2nlong <prefix> <fill> <count> <suffix> -> (8-bit units) the text prefix ++ fill^count ++ suffix built here
 //        (count up to 2^31; a 10^8-unit text cannot travel through the pipe as a unit list), same output as s2n
+//   s2nfast <8|16|32|64> <units>     ->  Digit::FastStringToNumber<unsigned N-bit>(number, content, length), decimal
+//        (an unchecked primitive: every unit is taken as a digit, the value wraps in the type)
+//   s2nhex <8|16|32|64> <off> <end> <units> -> Digit::HexStringToNumber<unsigned N-bit>(value, offset, end_offset):
+//        "<value decimal> <new offset>"; s2nhexlen <N> <units> -> the (value, length) overload: "<value decimal>"
 //   s2nstrtod <units>                ->  16 hex digits of strtod() on the text (second opinion only; never a verdict)
 #include "common.hpp"
 #include "Digit.hpp"
@@ -40,6 +44,30 @@ static std::string doConvLen(const std::vector<uint64_t> &u) {
     return buf;
 }
 
+template <typename Num_T>
+static std::string doFast(const std::vector<uint64_t> &u) {
+    vh::ExactBuf<char> in(u);
+    Num_T              n = Num_T(0x5A);
+    Digit::FastStringToNumber(n, static_cast<const char *>(in.p), SizeT(in.n));
+    return std::to_string((unsigned long long)n);
+}
+
+template <typename Num_T>
+static std::string doHex(const std::vector<uint64_t> &u, uint64_t off, uint64_t end) {
+    if (end > u.size() || off > end) return "bad-op";
+    vh::ExactBuf<char> in(u);
+    SizeT              offset = SizeT(off);
+    const Num_T        n      = Digit::HexStringToNumber<Num_T>(static_cast<const char *>(in.p), offset, SizeT(end));
+    return std::to_string((unsigned long long)n) + " " + std::to_string((unsigned)offset);
+}
+
+template <typename Num_T>
+static std::string doHexLen(const std::vector<uint64_t> &u) {
+    vh::ExactBuf<char> in(u);
+    const Num_T        n = Digit::HexStringToNumber<Num_T>(static_cast<const char *>(in.p), SizeT(in.n));
+    return std::to_string((unsigned long long)n);
+}
+
 int main() {
     std::string line;
     while (vh::read_line(line)) {
@@ -57,6 +85,25 @@ int main() {
             else if (t[1] == "2") vh::emit(doConvLen<char16_t>(u));
             else if (t[1] == "4") vh::emit(doConvLen<char32_t>(u));
             else if (t[1] == "W") vh::emit(doConvLen<wchar_t>(u));
+            else vh::emit("bad-op");
+        } else if (t.size() == 3 && t[0] == "s2nfast" && vh::parse_nats(t[2], u)) {
+            if (t[1] == "8") vh::emit(doFast<unsigned char>(u));
+            else if (t[1] == "16") vh::emit(doFast<unsigned short>(u));
+            else if (t[1] == "32") vh::emit(doFast<unsigned int>(u));
+            else if (t[1] == "64") vh::emit(doFast<unsigned long long>(u));
+            else vh::emit("bad-op");
+        } else if (t.size() == 5 && t[0] == "s2nhex" && vh::parse_nats(t[2], a) && vh::parse_nats(t[3], b) && a.size() == 1 &&
+                   b.size() == 1 && vh::parse_nats(t[4], u)) {
+            if (t[1] == "8") vh::emit(doHex<unsigned char>(u, a[0], b[0]));
+            else if (t[1] == "16") vh::emit(doHex<unsigned short>(u, a[0], b[0]));
+            else if (t[1] == "32") vh::emit(doHex<unsigned int>(u, a[0], b[0]));
+            else if (t[1] == "64") vh::emit(doHex<unsigned long long>(u, a[0], b[0]));
+            else vh::emit("bad-op");
+        } else if (t.size() == 3 && t[0] == "s2nhexlen" && vh::parse_nats(t[2], u)) {
+            if (t[1] == "8") vh::emit(doHexLen<unsigned char>(u));
+            else if (t[1] == "16") vh::emit(doHexLen<unsigned short>(u));
+            else if (t[1] == "32") vh::emit(doHexLen<unsigned int>(u));
+            else if (t[1] == "64") vh::emit(doHexLen<unsigned long long>(u));
             else vh::emit("bad-op");
         } else if (t.size() == 5 && t[0] == "s2nlong" && vh::parse_nats(t[1], u) && vh::parse_nats(t[2], a) &&
                    vh::parse_nats(t[3], b) && a.size() == 1 && b.size() == 1 && b[0] <= (1ULL << 31)) {
